@@ -9,6 +9,9 @@ CHECKS = {
  "C06": dict(cat="model_checking", design="3/C06", technique="Butcher tableau and stage times extracted from the running iterator by a unit-vector probe; TLC (RungeKutta.tla, exact rationals) decides order conditions, c = A*1, documented tableau/times, cubic quadrature, state untouched",
              text="Order of accuracy is a theorem about (A,b,c); the tableau is extracted from the executing code, not transcribed, and TLC evaluates the 8 order conditions with the times the code really uses, so non-autonomous order is decided exactly rather than estimated from convergence plots.",
              note="iterator linear in derivative values; tableau entries rational with denominator <= 1000; trusted: TLC evaluation of Rat.tla"),
+ "C07": dict(cat="model_checking", design="3/C07", technique="TLA+ transcription of the upwind transport (PBMTransport.tla) model-checked exhaustively by TLC over a small exact domain; real PopulationBalanceModel bound by TLC-as-evaluator equality on the same and larger inputs",
+             text="Conservation (sum law), upwinding, nucleation class, per-face limiting, non-negativity under the step limit and the step-limit formula are invariants TLC checks on every distribution/growth field/nucleation term/dt of the 3-class rational domain; the code is bound to the transcription by equality of netFlux, dXdt, corrected values, step limit, dissolution index and nucleation class on the 3-class product and on seeded 4-10 class instances.",
+             note="uniform grids; rational inputs; rtol 1e-9; cases whose exact evaluation overflows TLC's 32-bit integers are skipped and counted in evidence"),
 }
 
 NOT_APPLICABLE = {
